@@ -190,7 +190,7 @@ func verifDataRow(cols ...[]byte) []byte {
 func verifPgMarker(name string, n int) []byte {
 	m := verif.Bytes(name, n)
 	for i := range m {
-		m[i] = 'G' + m[i]&15
+		m[i] = 'g' + m[i]&15
 	}
 	return m
 }
@@ -321,6 +321,8 @@ func VerifC04_PgUncovered() {
 		second = []byte{}
 	case 2:
 		second = verif.Bytes("b", 2)
+		// bound: ASCII (the escape decoder goes through []rune, whose UTF-8 decoding the engine does not model)
+		verif.Assume(verif.And(second[0] < 0x80, second[1] < 0x80))
 	}
 	row := verifDataRow(verifPgMarker("a", 2), second)
 	out, err := w.fromDB(verifDup(row))
@@ -328,4 +330,226 @@ func VerifC04_PgUncovered() {
 	if err == nil {
 		verif.Assert(verif.Eq(out, row), "uncovered-row-unchanged")
 	}
+}
+
+// ---- extended protocol ----
+
+func verifParse(name, query string) []byte {
+	body := append([]byte(name), 0)
+	body = append(body, query...)
+	body = append(body, 0, 0, 0) // no parameter type oids
+	return verifFrame('P', body)
+}
+
+// verifBind: unnamed portal; paramFormats / resultFormats as in the protocol (empty = all text, one = for all).
+func verifBind(stmt string, paramFormats []uint16, params [][]byte, resultFormats []uint16) []byte {
+	body := []byte{0}
+	body = append(body, stmt...)
+	body = append(body, 0)
+	put16 := func(v uint16) { body = append(body, byte(v>>8), byte(v)) }
+	put16(uint16(len(paramFormats)))
+	for _, f := range paramFormats {
+		put16(f)
+	}
+	put16(uint16(len(params)))
+	for _, p := range params {
+		l := make([]byte, 4)
+		binary.BigEndian.PutUint32(l, uint32(len(p)))
+		body = append(body, l...)
+		body = append(body, p...)
+	}
+	put16(uint16(len(resultFormats)))
+	for _, f := range resultFormats {
+		put16(f)
+	}
+	return verifFrame('B', body)
+}
+
+func verifExecute() []byte { return verifFrame('E', []byte{0, 0, 0, 0, 0}) }
+func verifSync() []byte    { return verifFrame('S', nil) }
+
+// verifBindParams splits the parameters out of a Bind message (independent of Acra's BindPacket code).
+func verifBindParams(wire []byte) (formats []uint16, params [][]byte, ok bool) {
+	if len(wire) < 5 || wire[0] != 'B' || int(binary.BigEndian.Uint32(wire[1:5])) != len(wire)-1 {
+		return nil, nil, false
+	}
+	b := wire[5:]
+	for k := 0; k < 2; k++ { // portal, statement
+		i := bytes.IndexByte(b, 0)
+		if i < 0 {
+			return nil, nil, false
+		}
+		b = b[i+1:]
+	}
+	if len(b) < 2 {
+		return nil, nil, false
+	}
+	nf := int(binary.BigEndian.Uint16(b))
+	b = b[2:]
+	for i := 0; i < nf; i++ {
+		if len(b) < 2 {
+			return nil, nil, false
+		}
+		formats = append(formats, binary.BigEndian.Uint16(b))
+		b = b[2:]
+	}
+	if len(b) < 2 {
+		return nil, nil, false
+	}
+	np := int(binary.BigEndian.Uint16(b))
+	b = b[2:]
+	for i := 0; i < np; i++ {
+		if len(b) < 4 {
+			return nil, nil, false
+		}
+		l := int(int32(binary.BigEndian.Uint32(b)))
+		b = b[4:]
+		if l < 0 {
+			params = append(params, nil)
+			continue
+		}
+		if l > len(b) {
+			return nil, nil, false
+		}
+		params = append(params, b[:l])
+		b = b[l:]
+	}
+	return formats, params, true
+}
+
+// VerifC04_PgExtendedWriteThenRead: extended protocol. A value bound to a placeholder of the protected column, in
+// text or in binary parameter format, is forwarded only in protected form while the other parameters are untouched;
+// read back with text or binary result format the owner gets the original value.
+func VerifC04_PgExtendedWriteThenRead() {
+	binaryResult := verif.Choose("result-format", 0, 1) == 1
+	if binaryResult {
+		// the column decoder runs every value through the escape-format decoder, which converts to []rune
+		verif.FreshASCII()
+	}
+	store := verifPgKeys()
+	envelope := config.CryptoEnvelopeTypeAcraBlock
+	if verif.Choose("envelope", 0, 1) == 1 {
+		envelope = config.CryptoEnvelopeTypeAcraStruct
+	}
+	w := verifNewPg(store, "A", envelope)
+	stmts := []string{
+		"insert into t (id, secret, plain) values ($1, $2, $3)",
+		"insert into t values ($1, $2, $3)",
+		"update t set plain = $3, secret = $2 where id = $1",
+	}
+	k := verif.Choose("statement", 0, len(stmts)-1)
+	_, censored, err := w.fromClient(verifParse("s1", stmts[k]))
+	verif.Assert(err == nil && !censored, "parse-forwarded")
+	if err != nil || censored {
+		return
+	}
+	lit := verifPgMarker("value", 3)
+	var pf []uint16
+	binaryParam := false
+	switch verif.Choose("param-format", 0, 2) {
+	case 1:
+		pf = []uint16{1}
+		binaryParam = true
+	case 2:
+		pf = []uint16{0, 1, 0}
+		binaryParam = true
+	}
+	idParam := []byte("1")
+	if len(pf) == 1 {
+		idParam = []byte{0, 0, 0, 1}
+	}
+	bind := verifBind("s1", pf, [][]byte{idParam, lit, []byte("keep")}, nil)
+	fwd, censored, err := w.fromClient(verifDup(bind))
+	verif.Assert(err == nil && !censored, "bind-forwarded")
+	if err != nil || censored {
+		return
+	}
+	verif.Reach("bind-forwarded")
+	formats, params, ok := verifBindParams(fwd)
+	verif.Assert(ok && len(params) == 3, "forwarded-bind-well-formed")
+	if !ok || len(params) != 3 {
+		return
+	}
+	// Acra may switch the format of the parameter it rewrites; the database reads every parameter in the format the
+	// forwarded message declares for it
+	fmtOf := func(fs []uint16, i int) uint16 {
+		switch len(fs) {
+		case 0:
+			return 0
+		case 1:
+			return fs[0]
+		}
+		return fs[i]
+	}
+	verif.Assert(len(formats) <= 1 || len(formats) == 3, "forwarded-format-codes-count")
+	if len(formats) > 1 && len(formats) != 3 {
+		return
+	}
+	verif.Assert(verif.Eq(params[0], idParam) && fmtOf(formats, 0) == fmtOf(pf, 0), "uncovered-parameter-1-unchanged")
+	verif.Assert(verif.Eq(params[2], []byte("keep")) && fmtOf(formats, 2) == fmtOf(pf, 2), "uncovered-parameter-3-unchanged")
+	stored := params[1]
+	verif.Assert(len(stored) > len(lit) && !verif.Eq(stored[:3], lit), "protected-parameter-rewritten")
+	if fmtOf(formats, 1) == 0 {
+		// text format: the database reads the bytea input syntax \x<hex>; no raw byte of the value is in the message
+		verif.Assert(!verif.Contains(fwd, lit), "plaintext-not-forwarded")
+		verif.Assert(len(stored) >= 2 && stored[0] == '\\' && stored[1] == 'x', "text-parameter-is-hex-bytea")
+		if len(stored) < 2 {
+			return
+		}
+		stored, err = hex.DecodeString(string(stored[2:]))
+		verif.Assert(err == nil, "text-parameter-hex-decodes")
+		if err != nil {
+			return
+		}
+	}
+	_ = binaryParam
+	for _, p := range [][]byte{verifExecute(), verifSync()} {
+		out, censored, err := w.fromClient(verifDup(p))
+		verif.Assert(err == nil && !censored && verif.Eq(out, p), "execute-sync-forwarded-unchanged")
+	}
+	for _, p := range [][]byte{verifFrame('1', nil), verifFrame('2', nil), verifCommandComplete("INSERT 0 1"), verifReady()} {
+		out, err := w.fromDB(verifDup(p))
+		verif.Assert(err == nil && verif.Eq(out, p), "completion-relayed-unchanged")
+	}
+
+	// read side on the same connection
+	_, _, err = w.fromClient(verifParse("s2", "select id, secret, plain from t"))
+	verif.Assert(err == nil, "select-parse-forwarded")
+	var rf []uint16
+	if binaryResult {
+		rf = []uint16{0, 1, 0}
+	}
+	sb := verifBind("s2", nil, nil, rf)
+	out, _, err := w.fromClient(verifDup(sb))
+	verif.Assert(err == nil && verif.Eq(out, sb), "select-bind-forwarded-unchanged")
+	if _, _, err := w.fromClient(verifExecute()); err != nil {
+		verif.Assert(false, "select-execute")
+		return
+	}
+	if _, _, err := w.fromClient(verifSync()); err != nil {
+		verif.Assert(false, "select-sync")
+		return
+	}
+	for _, p := range [][]byte{verifFrame('1', nil), verifFrame('2', nil)} {
+		out, err := w.fromDB(verifDup(p))
+		verif.Assert(err == nil && verif.Eq(out, p), "completion-relayed-unchanged")
+	}
+	col := verifPgHex(stored)
+	want := verifPgHex(lit)
+	if binaryResult {
+		col, want = stored, lit
+	}
+	rd := verifRowDescription("id", "secret", "plain")
+	if _, err := w.fromDB(rd); err != nil {
+		verif.Assert(false, "row-description")
+		return
+	}
+	row := verifDataRow([]byte("1"), col, []byte("keep"))
+	got, err := w.fromDB(verifDup(row))
+	verif.Reach("row-processed")
+	verif.Assert(err == nil, "row-no-error")
+	if err != nil {
+		return
+	}
+	verif.Assert(verif.Eq(got, verifDataRow([]byte("1"), want, []byte("keep"))), "owner-reads-original-row")
 }
